@@ -96,7 +96,13 @@ def check(ctx):
     ctx.rule("C15.R3", "set_fields / unset_fields / fields_set / replace operate on the live set as documented", floor=4)
     sf = model.func(f"{F}.set_fields")
     t = norm(sf.node)
-    ok = "if overwrite" in t and "_fields_set(obj).clear()" in t and "_fields_set(obj).update(map(get_field_name, fields))" in t and t.index("clear()") < t.index("update(")
+    # receivers: `_fields_set(obj)` itself or a local bound to it
+    live = {"_fields_set(obj)"} | {norm(a.targets[0]) for a in ast.walk(sf.node) if isinstance(a, ast.Assign) and norm(a.value) == "_fields_set(obj)"}
+    clears = [c for i_ in ast.walk(sf.node) if isinstance(i_, ast.If) and norm(i_.test) == "overwrite" for b_ in i_.body for c in ast.walk(b_)
+              if isinstance(c, ast.Call) and isinstance(c.func, ast.Attribute) and c.func.attr == "clear" and norm(c.func.value) in live]
+    updates = [c for c in ast.walk(sf.node) if isinstance(c, ast.Call) and isinstance(c.func, ast.Attribute) and c.func.attr == "update" and norm(c.func.value) in live and len(c.args) == 1
+               and norm(c.args[0]) in ("map(get_field_name, fields)", "(get_field_name(field) for field in fields)", "(get_field_name(f) for f in fields)", "[get_field_name(f) for f in fields]", "[get_field_name(field) for field in fields]")]
+    ok = len(clears) == 1 and len(updates) == 1 and clears[0].lineno < updates[0].lineno
     ctx.check(ok, "C15.R3", sf.qualname, sf.node.body[0], "set_fields must (clear when overwrite, then) add the given field names", sf, sf.node, detail="[clear]; update(names)")
     uf = model.func(f"{F}.unset_fields")
     ctx.check("_fields_set(obj).difference_update(map(get_field_name, fields))" in norm(uf.node), "C15.R3", uf.qualname, uf.node.body[0], "unset_fields must remove the given field names", uf, uf.node, detail="difference_update(names)")
